@@ -33,6 +33,8 @@ RECURSIVE SumVol(_, _)
 SumVol(cs, i) == IF i > Len(cs) THEN 0
                  ELSE (IF cs[i].m = "on" THEN cs[i].vol ELSE 0) + SumVol(cs, i + 1)
 OnlineVol(us) == SumVol(us.conts, 1)
+\* triggers of the answer for one usage entry: one QUOTA_THRESHOLD per offline container seen, then those of the branch
+OfflineTrigs(us) == [i \in 1..Cardinality({j \in 1..Len(us.conts) : us.conts[j].m = "off"}) |-> "QUOTA_THRESHOLD"]
 HasOnline(us) == \E i \in 1..Len(us.conts) : us.conts[i].m = "on"
 RECURSIVE FlatIds(_, _)
 FlatIds(usage, i) == IF i > Len(usage) THEN <<>>
@@ -94,7 +96,8 @@ CCEntry(S, u, us, trig) ==
         grant == Min(RateReserveAllowed(mq, cost), reqV)
         slot2 == [slot1 EXCEPT !.reserved = r2, !.ucost = cost, !.reqnum = @ + 1,
                                !.rtype = IF ab.fui THEN "debit" ELSE @]
-        info  == [rg |-> g, granted |-> grant, fui |-> ab.fui]
+        info  == [rg |-> g, granted |-> grant, fui |-> ab.fui,
+                  trig |-> OfflineTrigs(us) \o (IF ab.fui THEN <<>> ELSE <<"QUOTA_THRESHOLD">>) \o <<"QUOTA_EXHAUSTED">>]
     IN [st |-> [st EXCEPT !.ue[u] = [ue1 EXCEPT !.rg[g] = slot2], !.acct[k].quota = ab.quota],
         mui |-> Append(S.mui, info), partial |-> part, panic |-> FALSE]
   ELSE \* debit mode
@@ -104,7 +107,7 @@ CCEntry(S, u, us, trig) ==
                            ELSE AbmfTermDebit(acc.quota, price - slot1.reserved)
         slot2 == [slot1 EXCEPT !.reserved = 0, !.reqnum = @ + 1,
                                !.rtype = IF refund THEN "reserve" ELSE "debit"]
-        info  == [rg |-> g, granted |-> 0, fui |-> FALSE]
+        info  == [rg |-> g, granted |-> 0, fui |-> FALSE, trig |-> OfflineTrigs(us) \o <<"QUOTA_EXHAUSTED">>]
     IN [st |-> [st EXCEPT !.ue[u] = [ue1 EXCEPT !.rg[g] = slot2], !.acct[k].quota = q2],
         mui |-> Append(S.mui, info), partial |-> part, panic |-> FALSE]
 
